@@ -44,7 +44,7 @@ import logging
 import time
 import traceback
 
-from vlib import core, explore, peerbot, refquic, seams
+from vlib import core, explore, netcheck, netsim, peerbot, refquic, seams
 
 LEVEL = "model_checking"
 logging.getLogger("quic").setLevel(logging.CRITICAL + 1)  # E's own error log is not evidence
@@ -680,6 +680,160 @@ def bfs(role, base, alpha, depth, max_states=None, time_cap=None):
     return stats, outcomes, viols, samples
 
 
+# ============================================= part "load": CID changes under load
+# NetSim: two REAL endpoints, bulk transfer that fills the congestion window, one
+# endpoint calls change_connection_id() at a swept virtual time.  The same oracle as
+# above, from the decrypted wire of BOTH endpoints, evaluated when the goal (all data
+# delivered) is reached and the world is quiescent.
+def _W(sid, n):
+    return {"op": "w", "sid": sid, "n": n, "fin": True, "g": "hs"}
+
+
+LOAD_SCRIPTS = {
+    "up": {"c": [_W(0, 60000)], "s": []},
+    "down": {"c": [], "s": [_W(1, 60000)]},
+    "both": {"c": [_W(0, 30000)], "s": [_W(1, 30000)]},
+}
+# seconds after start (one-way latency 10 ms; the handshake completes at 20 ms on the
+# client, 30 ms on the server; the client learns the server's spare IDs at 40 ms)
+LOAD_TIMES = (0.021, 0.025, 0.03, 0.035, 0.04, 0.045, 0.05, 0.06, 0.07, 0.08)
+
+
+class CidMonitor(netsim.Monitor):
+    def attach(self, w):
+        self.issued = {"c": {}, "s": {}}  # endpoint -> {cid bytes: seq} it issued
+        self.retire = {"c": {}, "s": {}}  # endpoint -> {peer seq: [dgram ids carrying RETIRE]}
+        self.retired_by_peer = {"c": set(), "s": set()}  # own seqs whose RETIRE was delivered
+        self.dcid_hist = {"c": [], "s": []}  # peer seqs used as DCID (compressed)
+        self.rpt = {"c": 0, "s": 0}  # largest retire-prior-to delivered TO the endpoint
+        self.delivered = set()
+        self.dgram_frames = {}  # dgram id -> [(kind, seq, rpt)] of CID frames
+
+    def after_pump(self, w, ep, cause, sent, new_events, timer):
+        me = ep.name
+        peer = "s" if me == "c" else "c"
+        for d, _addr in sent:
+            for rec in d.recs or []:
+                if rec.frames is None:
+                    continue
+                if rec.type in ("initial", "handshake") and rec.scid and not self.issued[me]:
+                    self.issued[me][rec.scid] = 0
+                for f in rec.frames:
+                    if f["t"] == "NEW_CONNECTION_ID":
+                        self.issued[me].setdefault(f["cid"], f["seq"])
+                        self.dgram_frames.setdefault(d.id, []).append(("N", f["seq"], f["rpt"]))
+                    elif f["t"] == "RETIRE_CONNECTION_ID":
+                        self.retire[me].setdefault(f["seq"], []).append(d.id)
+                        self.dgram_frames.setdefault(d.id, []).append(("R", f["seq"], None))
+                if rec.type != "1rtt":
+                    continue
+                seq = self.issued[peer].get(rec.dcid)
+                h = self.dcid_hist[me]
+                if not h or h[-1] != seq:
+                    h.append(seq)
+                usable = [s2 for s2 in self.issued[peer].values()
+                          if s2 >= self.rpt[me] and s2 not in self.retire[me]]
+                if usable and (seq is None or seq < self.rpt[me]):
+                    raise netsim.Violation(
+                        {"monitor": "dcid_below_rpt", "cls": "under_load"},
+                        "endpoint %s sent pn=%s to peer CID seq %s although retire-prior-to %d "
+                        "was delivered" % (me, rec.pn, seq, self.rpt[me]))
+            active = [q for q in self.issued[me].values() if q not in self.retired_by_peer[me]]
+            if len(active) > LIMIT_PEER:
+                raise netsim.Violation(
+                    {"monitor": "host_cid_limit", "cls": "under_load"},
+                    "endpoint %s has %d issued, un-retired connection IDs %s (peer limit %d)"
+                    % (me, len(active), sorted(active), LIMIT_PEER))
+
+    def on_deliver(self, w, ep, d, addr):
+        if d.id in self.delivered:
+            return
+        self.delivered.add(d.id)
+        for kind, seq, rpt in self.dgram_frames.get(d.id, ()):
+            if kind == "N":
+                self.rpt[ep.name] = max(self.rpt[ep.name], rpt)
+            else:
+                self.retired_by_peer[ep.name].add(seq)
+
+    def at_end(self, w, outcome):
+        if outcome != "done":
+            return  # the fair phase did not reach the goal: liveness is C01's business
+        for me, peer in (("c", "s"), ("s", "c")):
+            ep = w.ep[me]
+            if ep.terminated is not None:
+                raise netsim.Violation(
+                    {"monitor": "closed_under_load", "code": ep.terminated.error_code},
+                    "endpoint %s terminated: %r" % (me, ep.terminated))
+            h = self.dcid_hist[me]
+            for s2 in h[:-1]:
+                if s2 is None:
+                    continue
+                ids = self.retire[me].get(s2, [])
+                if not any(i in self.delivered for i in ids):
+                    raise netsim.Violation(
+                        {"monitor": "retire_missing", "below_rpt": False,
+                         "cls": "never_announced" if not ids else "not_repeated_after_loss"},
+                        "under load: endpoint %s stopped using peer CID seq %d (DCID history %s) but "
+                        "no RETIRE_CONNECTION_ID(%d) reached the peer (carried by datagrams %s); all "
+                        "data delivered, world quiescent" % (me, s2, h, s2, ids))
+            kept = [q for q in self.issued[peer].values() if q not in self.retire[me]]
+            if len(kept) > LIMIT_LOCAL:
+                raise netsim.Violation(
+                    {"monitor": "peer_cid_limit", "cls": "under_load"},
+                    "endpoint %s holds %d peer-issued un-retired IDs" % (me, len(kept)))
+            if self.retired_by_peer[me]:
+                active = [q for q in self.issued[me].values() if q not in self.retired_by_peer[me]]
+                if len(active) < LIMIT_PEER:
+                    raise netsim.Violation(
+                        {"monitor": "no_replacement", "cls": "under_load"},
+                        "endpoint %s: peer retired %s, only %d active IDs afterwards"
+                        % (me, sorted(self.retired_by_peer[me]), len(active)))
+
+
+def load_goal(w):
+    peer = {"c": "s", "s": "c"}
+    for name in ("c", "s"):
+        ep = w.ep[name]
+        if ep.op_i < len(ep.ops):
+            return False
+        for sid, (n, fin, rst) in w.written(name).items():
+            if len(w.ep[peer[name]].rx.get(sid, b"")) < n:
+                return False
+    return True
+
+
+def load_factory(sc):
+    script = {k: [dict(o) for o in v] for k, v in LOAD_SCRIPTS[sc["script"]].items()}
+    script[sc["who"]].append({"op": "cid", "g": ("t", sc["t"])})
+    kw = {"max_steps": 900, "horizon": 60.0, "deviations": tuple(sc.get("dev", ("drop", "delay")))}
+    return {"cc": sc["cc"]}, script, [CidMonitor()], kw, load_goal
+
+
+netcheck.register("c18", load_factory)
+
+
+def run_load(ctx):
+    quick = ctx.tier == "quick"
+    scen = {}
+    for script in LOAD_SCRIPTS:
+        for who in ("c", "s"):
+            for cc in ("reno", "cubic"):
+                for t in LOAD_TIMES:
+                    if quick and cc == "cubic" and t not in (0.025, 0.045):
+                        continue
+                    scen["%s|cid@%s|t=%g|%s" % (script, who, t, cc)] = {
+                        "script": script, "who": who, "t": t, "cc": cc}
+    agg = netcheck.explore_scenarios(ctx, "c18", scen, 0, "load_d0")
+    if len(agg["outcomes"]) < 3:
+        raise core.HarnessError("vacuous load exploration")
+    if quick:
+        sub = {k: dict(v, dev=("drop",)) for k, v in scen.items()
+               if v["cc"] == "reno" and (v["script"], v["who"], v["t"]) in (("up", "c", 0.045), ("down", "s", 0.025))}
+    else:
+        sub = {k: v for k, v in scen.items() if v["t"] in (0.025, 0.045) and v["script"] != "both"}
+    netcheck.explore_scenarios(ctx, "c18", sub, 1, "load_d1")
+
+
 # ====================================================================== main
 PLAN = {
     # (role, base, alphabet, depth)
@@ -715,6 +869,8 @@ def run(ctx):
             raise core.HarnessError("active_connection_id_limit changed: E=%r peer=%r" % (loc, peer))
     all_viols = []
     outcomes = set()
+    if not ctx.only_parts or "load" in ctx.only_parts:
+        run_load(ctx)
     for role, base, alpha, depth in PLAN[ctx.tier]:
         name = "%s_%s_%s_d%d" % (role, base, alpha, depth)
         if ctx.only_parts and name not in ctx.only_parts and alpha not in ctx.only_parts:
@@ -741,7 +897,7 @@ def run(ctx):
             ctx.sample({"part": name, "history": h})
         for k, (sig, what, hist) in viols.items():
             all_viols.append((len(hist), name, sig, what, dict(role=role, base=base, alpha=alpha, history=hist)))
-    if len(outcomes) < 3 and not all_viols:
+    if len(outcomes) < 3 and not all_viols and not (ctx.only_parts and "load" in ctx.only_parts):
         raise core.HarnessError("vacuous exploration: %d distinct outcomes" % len(outcomes))
     # shortest counterexample per signature first
     all_viols.sort(key=lambda v: (v[0], v[1], core.jdump(v[2], sort_keys=True)))
@@ -784,6 +940,13 @@ def _replay_sigs(rp):
 
 def replay(ctx, obj):
     rp = obj["replay"]
+    if rp.get("engine") == "netsim":
+        v = netcheck.replay("c18", obj)
+        if v is not None:
+            print("VIOLATION property=C18 replay=(replayed)")
+            return 1
+        print("no violation on replay")
+        return 0
     print("E role %s, base state %s, alphabet %s" % (rp["role"], rp["base"], rp["alpha"]))
     w = World(rp["role"], rp["base"], rp["alpha"])
     c = w.bot.E.conn
